@@ -29,7 +29,7 @@ PROP = dict(
           'known with a complete header, first RLE run started); distinct by '
           'hash of (entry point, input bytes, declared length, capacity)'),
     quick=dict(configs=['asan', 'rel', 'oom'], cases=1200000, maxlen=200),
-    thorough=dict(configs=['asan', 'rel', 'oom'], cases=8000000, maxlen=600,
+    thorough=dict(configs=['asan', 'rel', 'oom'], cases=6000000, maxlen=600,
                   fuzz_s=240, fuzz_maxlen=900, setmax=1 << 23),
     required_classes=[
         'entry.tagged', 'entry.dictDecode', 'entry.dictDecodeInto',
